@@ -106,7 +106,7 @@ def render(stmts, plan, rng, fixed):
             a, b = t[:d["cut"]], t[d["cut"]:]
             if fixed:
                 lines.append(head + a)
-                lines.append("     " + rng.choice("&1+$.") + b)
+                lines.append("     " + rng.choice("&1+$.!*") + b)
             else:
                 lines.append(head + a + " &")
                 lines.append("     " + rng.choice(["", "&"]) + b)
@@ -211,6 +211,20 @@ def theorem_instances(ctx):
             if detect_fixed_format(ls):
                 ctx.report("C14:free-as-fixed", "a free-form program whose statements are indented by %d blanks is classified as fixed form" % indent,
                            {"kind": "counterexample", "input": {"lines": ls}, "implementation": True, "oracle": False})
+    # continuation_or_declaration_never_fixed: a declaration starting before column 7, or a trailing & outside a column-1 comment
+    for kw in ["integer", "real", "double precision", "complex", "double complex", "character(len=3)", "logical", "procedure(p)", "external", "class(t)", "type(t)",
+               "CHARACTER", "Double  Precision", "Class(t), allocatable"]:
+        for ind in (0, 1, 5):
+            ls = [r.choice(["program p", "c = 1", "* = 2"]), " " * ind + kw + " :: zz", "end"]
+            ctx.count(("inst-decl", kw, ind), True)
+            if detect_fixed_format(ls):
+                ctx.report("C14:free-as-fixed", "a free-form text with a declaration starting in column %d is classified as fixed form" % (ind + 1),
+                           {"kind": "counterexample", "input": {"lines": ls}, "implementation": True, "oracle": False})
+    for ls in (["program p", "x = 1 + &", "    2", "end"], ["a = [1, & ! c", "2]"], ["x = s(a, &", "b)"]):
+        ctx.count(("inst-amp", tuple(ls)), True)
+        if detect_fixed_format(ls):
+            ctx.report("C14:free-as-fixed", "a free-form text with a trailing & is classified as fixed form",
+                       {"kind": "counterexample", "input": {"lines": ls}, "implementation": True, "oracle": False})
     for _ in range(40):
         ls = []
         for _ in range(r.choice([1, 3, 6])):
@@ -220,7 +234,7 @@ def theorem_instances(ctx):
             elif k == "s":
                 ls.append(r.choice(["     ", "10   ", "  20 ", "    5", "12345"]) + " " + " " * r.choice([0, 2]) + r.choice(bodies) + r.choice(["", " ! c", " ! c &"]))
             else:
-                ls.append("     " + r.choice("&1+$.9") + r.choice([" x", "x + 1", " , y ! c"]))
+                ls.append("     " + r.choice("&1+$.9!") + r.choice([" x", "x + 1", " , y ! c"]))
         ctx.count(("inst-fixed", tuple(ls)), True)
         if not detect_fixed_format(ls):
             ctx.report("C14:fixed-not-recognised", "a program printed in fixed form is classified as free form",
